@@ -236,7 +236,7 @@ def run(ctx):
         fcalls = [b for b, t in ac.calls() if t["f"].get("name") == "call_once" and render(ac.sym_operand(t["args"][0])) == "f"]
         guards = [b for b, i, adt, var, fl, ops, s_ in aggregates(ac) if adt == "anchor_store::Guard"]
         guarded = [fb for fb in fcalls if any(ac.dominates(gb, fb) for gb in guards)]
-        ctx.check(len(guarded) == 1 and len(fcalls) == 2, "STATE", "C15:STATE:anchor-context:shape", "one guarded call (anchor present) and one plain call (no anchor)", "with_anchor_context changed shape: %d closure calls, %d guarded" % (len(fcalls), len(guarded)), config, ctx.where(ac))
+        ctx.check(len(fcalls) >= 1 and len(guarded) >= 1, "STATE", "C15:STATE:anchor-context:shape", "the user closure is called under the context guard (%d call(s), %d guarded)" % (len(fcalls), len(guarded)), "with_anchor_context changed shape: %d closure calls, %d guarded" % (len(fcalls), len(guarded)), config, ctx.where(ac))
         for fb in guarded:
             ctx.check(any("anchor_store::Guard" in x for x in unwind_drops(ac, fb)), "STATE", "C15:STATE:anchor-context:unwind-drop", "the context guard is dropped on the unwind edge", "a panicking visitor leaves the anchor context pushed", config, ctx.where(ac, fb))
             pushes = [b for b, t in ac.calls() if fx.callee(t) == "std::thread::LocalKey::with"]
